@@ -62,7 +62,7 @@ func buildC14(tier string, seed int64) *Family {
 		if nsmap != "none" {
 			p["nsmap"] = nsmap
 		}
-		ex := &vm.OracleExtra{Exprs: map[string]oracle.Expr{"expr": ast}, NSMap: parseMap(nsmap), HasURI: nav == "ns"}
+		ex := &vm.OracleExtra{Exprs: map[string]oracle.Expr{"expr": ast, "reuse": ast}, NSMap: parseMap(nsmap), HasURI: nav == "ns"}
 		in := &vm.Instance{ID: text + " map=" + nsmap + " nav=" + nav + " @" + cfg.tag(), Harness: harness, Params: p, Extra: ex}
 		// a prefix that is missing from a non-nil map must be rejected by CompileWithNS
 		if m := parseMap(nsmap); m != nil || nsmap == "empty" {
@@ -126,7 +126,7 @@ func buildC14(tier string, seed int64) *Family {
 		return in
 	}
 	return &Family{
-		Instances: dedupInst(insts),
+		Instances: withValueReuse(withReuse(dedupInst(insts), 2), 2),
 		Canaries: []*vm.Instance{
 			wrong("child::p:a", "child::a", "none", "plain"),
 			wrong("child::p:a", "child::q:a", "p=u1;q=u2", "ns"),
